@@ -1506,6 +1506,12 @@ class Executor:
                 return PyFn(lambda x: self.np_any(x), 'numpy.any')
             if name == 'all':
                 return PyFn(lambda x: self.np_all(x), 'numpy.all')
+            if name == 'diff':
+                def diff(x, *a, **k):
+                    if isinstance(x, VList) and not a and not k and all(is_scalar(exact(i)) for i in x.items):
+                        return VList([self.binop(ast.Sub(), x.items[i + 1], x.items[i]) for i in range(len(x.items) - 1)], 'ndarray')
+                    return Tm('call:numpy.diff', x, *a)
+                return PyFn(diff, 'numpy.diff')
             if name == 'where':
                 def where(c, a, b):
                     if isinstance(c, bool):
